@@ -389,6 +389,10 @@ def run(ctx, chk, tier="quick"):
     from ..report import row_integrity
     row_integrity(chk, "C17.O3", g, b, "simulate_rise|row-integrity")
     reads = {src.table for src in sel.sources}
+    local = reads & {n for n, _q in getattr(sel, "ctes", [])}
+    if local or any(src.subq is not None for src in sel.sources):
+        chk.indeterminate("C17.O3", where_of(g, s.call), "the master-curve query reads a local sub-select / CTE (%s) that is not a plain projection: which stored curve it denotes is not decided" % (sorted(local) or "sub-select"))
+        return
     chk.ob("C17.O3", reads == {"average_rising_depth"}, where_of(g, s.call), "reads %s" % sorted(reads),
            "the measured master rise curve (view average_rising_depth)", key="simulate_rise|source")
     roles = {}
